@@ -223,6 +223,7 @@ def run_part(chk, workdir):
                                 'bursts': [list(b[:200]) for b in bursts]})
             body = b''.join(bursts)
             streams.append(body)
+            _monitor_stream(chk, H, url, initial, steps, body)
             distinct.add(('stream', url, tuple(len(b) > 0 for b in bursts), tuple(op[0] for st in steps for op in st)))
             # the stream stays open: no terminating chunk
             if body.endswith(b'0\r\n\r\n') and not body.endswith(b'\r\n0\r\n\r\n0\r\n\r\n'):
@@ -443,6 +444,18 @@ def _monitor_tail(chk, initial, head, steps, trace, known):
             chk.violation({'kind': 'PROPERTY VIOLATED: growing log, tail stream differs from initial tail + appended bytes',
                            'initial': list(initial), 'head': head, 'steps': _j(steps), 'delivered': list(delivered),
                            'expected': list(expect)})
+    # rotation / clear seen at a step boundary: restart from offset 0 of the new file
+    shape_ok = all((not st) or all(k == 'append' for k in [op[0] for op in st]) or
+                   (st[0][0] in ('rotate', 'remove_create') and all(op[0] == 'append' for op in st[1:]))
+                   for st in steps)
+    if shape_ok and any(k in ('rotate', 'remove_create') for k in kinds):
+        tail0 = initial[max(0, len(initial) - head):] if len(initial) >= head else initial
+        expect = tail0 + b''.join(op[1] for st in steps for op in st)
+        if delivered != expect:
+            chk.violation({'kind': 'PROPERTY VIOLATED: after a rotation/clear the tail stream does not restart from the start '
+                           'of the new file', 'initial': list(initial), 'head': head, 'steps': _j(steps),
+                           'delivered': list(delivered), 'expected': list(expect)})
+    # truncation seen at a step boundary: the notice, then from offset 0
     # signatures of the known findings
     for si, st in enumerate(steps):
         ks = [op[0] for op in st]
@@ -451,6 +464,41 @@ def _monitor_tail(chk, initial, head, steps, trace, known):
         if ('rotate' in ks or 'remove_create' in ks or 'unlink' in ks) and 'append' in ks[:max(
                 [i for i, k in enumerate(ks) if k in ('rotate', 'remove_create', 'unlink')] + [0])]:
             known['rotation_tail'] += 1
+
+
+NOTICE = b'==> File truncated <==\n'
+
+
+def _monitor_stream(chk, H, url, initial, steps, body):
+    """The stream law judged on the real HTTP response (decoded by the harness's
+    own decoder), for histories whose every step is: appends only | a rotation
+    or clear followed by appends | one truncation to a smaller size."""
+    cur = initial
+    expect = initial[max(0, len(initial) - 1024):]
+    for st in steps:
+        ks = [op[0] for op in st]
+        if all(k == 'append' for k in ks):
+            add = b''.join(op[1] for op in st)
+            cur += add
+            expect += add
+        elif ks and ks[0] in ('rotate', 'remove_create') and all(k == 'append' for k in ks[1:]):
+            cur = b''.join(op[1] for op in st)
+            expect += cur
+        elif ks == ['truncate'] and st[0][1] < len(cur):
+            cur = cur[:st[0][1]]
+            expect += NOTICE + cur
+        else:
+            return
+    try:
+        data, complete = H.independent_decode(body)
+    except ValueError as e:
+        data, complete = None, False
+    if data != expect or complete:
+        chk.violation({'kind': 'PROPERTY VIOLATED: the %s stream does not carry initial tail + appended bytes '
+                       '(restart after rotation, notice + restart after truncation) as an open chunked stream' % url,
+                       'initial': list(initial[:2000]), 'steps': _j(steps), 'body': list(body[:3000]),
+                       'decoded': None if data is None else list(data[:2000]), 'expected': list(expect[:2000]),
+                       'terminated': complete})
 
 
 def replay(chk, path):
